@@ -179,6 +179,7 @@ impl SimHook for SimCtl {
                 "kill" => "preempt@kill",
                 "sigmask" => "preempt@sigmask",
                 "wait_for_subshell" => "preempt@wait_for_subshell",
+                "wait_builtin" => "preempt@wait_builtin",
                 "subshell_start" => "preempt@subshell_start",
                 _ => "preempt@other",
             });
